@@ -14,14 +14,17 @@
 EXTENDS NoiseTerms, NoisePatterns
 
 (* ---- nonces ---------------------------------------------------------- *)
-(* <<"lo", j>> is the 64-bit value j ; <<"top", d>> is 2^64-1-d.          *)
+(* <<"lo", j>> is the 64-bit value j ; <<"top", d>> is 2^64-1-d ;         *)
+(* <<"pow", e, d>> is 2^e + d (TLC integers are 32-bit).                  *)
 (* <<"top", 0>> is the reserved value.                                    *)
 NLo(j)      == <<"lo", j>>
 NTop(d)     == <<"top", d>>
 NZero       == NLo(0)
 NReserved   == NTop(0)
 NIsMax(n)   == n = NReserved
-NInc(n)     == IF n[1] = "lo" THEN NLo(n[2] + 1) ELSE NTop(n[2] - 1)   \* never applied to NReserved
+NInc(n)     == CASE n[1] = "lo"  -> NLo(n[2] + 1)
+                 [] n[1] = "top" -> NTop(n[2] - 1)            \* never applied to NReserved
+                 [] n[1] = "pow" -> <<"pow", n[2], n[3] + 1>>
 
 (* ---- protocol instance ------------------------------------------------ *)
 (* pp = [pat, psks, publen, initpad, validates]                           *)
